@@ -275,6 +275,22 @@ func c12Calls() []c12Call {
 			}
 			return fmt.Sprintf("%q", parts) + errS(err)
 		}},
+		{"Path.Extract(selecting literals and the whole document)", func(w *c12World) string {
+			// what Extract hands out is the caller's to overwrite: neither the library's own constants nor the input
+			var all []string
+			for _, ps := range []string{"$.t", "$.f", "$.n", "$", "$.s"} {
+				p, err := json.CreatePath(ps)
+				if err != nil {
+					return "path error"
+				}
+				parts, err := p.Extract(w.input(`{"t":true,"f":false,"n":null,"s":"x"}`))
+				for _, part := range parts {
+					w.out(part)
+				}
+				all = append(all, fmt.Sprintf("%s=%q%s", ps, parts, errS(err)))
+			}
+			return strings.Join(all, " ")
+		}},
 		{"Path.Unmarshal", func(w *c12World) string {
 			p, err := json.CreatePath("$.a")
 			if err != nil {
